@@ -20,6 +20,8 @@ impl<const CAP: usize> RecordMaybeUninit<CAP> {
     /// This function should not be called by anything but truc-generated code. It is used to put
     /// data written by [`Self::write`] back in a droppable state.
     pub unsafe fn read<T>(&self, offset: usize) -> T {
+        #[cfg(truc_verif)]
+        crate::verif::prim::<T>("read", self.data.as_ptr() as usize, CAP, offset);
         std::ptr::read((self.data.as_ptr().add(offset) as *const u8).cast())
     }
 
@@ -30,6 +32,8 @@ impl<const CAP: usize> RecordMaybeUninit<CAP> {
     /// This function should not be called by anything but truc-generated code which is also
     /// responsible for dropping the data by reading the object (see [`Self::read`]).
     pub unsafe fn write<T>(&mut self, offset: usize, t: T) {
+        #[cfg(truc_verif)]
+        crate::verif::prim::<T>("write", self.data.as_ptr() as usize, CAP, offset);
         std::ptr::write((self.data.as_ptr().add(offset) as *mut u8).cast(), t);
     }
 
@@ -39,6 +43,8 @@ impl<const CAP: usize> RecordMaybeUninit<CAP> {
     ///
     /// This function should not be called by anything but truc-generated code.
     pub unsafe fn get<T>(&self, offset: usize) -> &T {
+        #[cfg(truc_verif)]
+        crate::verif::prim::<T>("get", self.data.as_ptr() as usize, CAP, offset);
         &*(self.data.as_ptr().add(offset) as *mut u8).cast()
     }
 
@@ -48,6 +54,8 @@ impl<const CAP: usize> RecordMaybeUninit<CAP> {
     ///
     /// This function should not be called by anything but truc-generated code.
     pub unsafe fn get_mut<T>(&mut self, offset: usize) -> &mut T {
+        #[cfg(truc_verif)]
+        crate::verif::prim::<T>("get_mut", self.data.as_ptr() as usize, CAP, offset);
         &mut *(self.data.as_ptr().add(offset) as *mut u8).cast()
     }
 }
